@@ -58,8 +58,9 @@ var c12Conn = [][]string{
 var c12Upg = [][]string{
 	{"websocket"}, {"WebSocket"}, {"WEBSOCKET"}, {"h2c, websocket"}, {"websocket, h2c"}, {"\twebsocket "}, {"h2c", "websocket"},
 	{"websockets"}, {"xwebsocket"}, {"websocket2"}, {"web socket"}, {"h2c"}, nil, {"websocket/13"}, {"h2c websocket"}, {"h2c", "websockets, awebsocket"},
+	{"websoc\u212aet"}, {"web\u017focket"}, {"h2c, websoc\u212aet"}, {"bad element here", "websocket"}, {"websocket", "bad element here"},
 }
-var c12Ver = [][]string{{"13"}, {"8"}, {"13, 8"}, {"8, 13"}, {""}, {"013"}, {"13 "}, nil, {"8", "13"}, {"1 3"}, {"13.0"}}
+var c12Ver = [][]string{{"13"}, {"8"}, {"13, 8"}, {"8, 13"}, {""}, {"013"}, {"13 "}, nil, {"8", "13"}, {"1 3"}, {"13.0"}, {"130"}, {"113"}, {"1"}, {"3"}, {"13a"}}
 
 func b64n(n int) string { return base64.StdEncoding.EncodeToString(Pattern(3, n)) }
 
